@@ -15,9 +15,9 @@ const pkgXConfmap = modPrefix + "/confmap/xconfmap"
 
 func init() {
 	register(&Property{
-		ID:  "C13",
-		Run: runC13,
-		Explain: "Static structural necessary conditions of strict and faithful configuration loading: (R1) strict decoding knobs – the mapstructure DecoderConfig sets ErrorUnused from the caller's flag, no weak typing, the case-sensitive matcher and the Unmarshaler hooks; Conf.Unmarshal passes !ignoreUnused; nothing outside cmd/mdatagen (tooling for metadata.yaml) calls WithIgnoreUnused; (R2) custom Unmarshalers stay strict – for every type implementing confmap.Unmarshaler (outside cmd/mdatagen) every return is a known non-nil error or is dominated by the success of a strict conf.Unmarshal (no options) on the method's own conf; (R3) the reflective validation walk is exhaustive – Ptr/Interface, Struct, Slice/Array and Map kinds each recurse into all children (fields/elements/keys and values), call the value's own Validate, collect instead of short-circuiting, and skip struct fields only when unexported; (R4) in every struct with mapstructure tags the effective keys (own tags plus squashed fields) are unique and squash is only used on struct-valued fields; (R5) reference and shape checks – each reference loop of Config.Validate returns an error on the lookup-miss side, connector ids are checked against both receivers and exporters, the pipeline config rejects empty receivers/exporters and repeated processors; (R6) the effective configuration handed to extensions is the marshalled loaded configuration; (R7) default configurations are fresh – a factory's default-config function never returns data read from package-level variables holding maps/slices/pointers (defaults would be shared and mutated across instances and reloads).",
+		ID:         "C13",
+		Run:        runC13,
+		Explain:    "Static structural necessary conditions of strict and faithful configuration loading: (R1) strict decoding knobs – the mapstructure DecoderConfig sets ErrorUnused from the caller's flag, no weak typing, the case-sensitive matcher and the Unmarshaler hooks; Conf.Unmarshal passes !ignoreUnused; nothing outside cmd/mdatagen (tooling for metadata.yaml) calls WithIgnoreUnused; (R2) custom Unmarshalers stay strict – for every type implementing confmap.Unmarshaler (outside cmd/mdatagen) every return is a known non-nil error or is dominated by the success of a strict conf.Unmarshal (no options) on the method's own conf; (R3) the reflective validation walk is exhaustive – Ptr/Interface, Struct, Slice/Array and Map kinds each recurse into all children (fields/elements/keys and values), call the value's own Validate, collect instead of short-circuiting, and skip struct fields only when unexported; (R4) in every struct with mapstructure tags the effective keys (own tags plus squashed fields) are unique and squash is only used on struct-valued fields; (R5) reference and shape checks – each reference loop of Config.Validate returns an error on the lookup-miss side, connector ids are checked against both receivers and exporters, the pipeline config rejects empty receivers/exporters and repeated processors; (R6) the effective configuration handed to extensions is the marshalled loaded configuration; (R7) default configurations are fresh – a factory's default-config function never returns data read from package-level variables holding maps/slices/pointers (defaults would be shared and mutated across instances and reloads).",
 		NotDecided: "Per-field faithfulness of every component's decoding (defaults overlaid by exactly the written keys), error message contents.",
 		Assumes:    []string{"mapstructure honours its DecoderConfig"},
 		Technique:  "static analysis: struct-literal/knob extraction, who-may-call, dominance gating over Unmarshaler methods, kind-switch coverage, struct-tag tables (go/types), provenance of returned defaults",
